@@ -17,6 +17,19 @@ CHECKS = {
              "inputs whose partial sums are exact in binary32; float32 store modelled by Base/Float.to_f32 (SpecFloat "
              "rounding). Print Assumptions: closed under the global context.",
         technique="Coq proof over list/Z model + exhaustive small-scope correspondence"),
+    "C11": dict(
+        cat="proof",
+        text="hdc/algo/dekad.py is translated to Gallina on every run (tools/translate_dekad.py, Python ast, fail-closed) and "
+             "the 14 theorems of coq/tied/C11.v (partition of the calendar, uniqueness, abutting, ndays, raw/ymd/label "
+             "inverses, chronological order, hash, integer translations; all integers k, no year bound except the label "
+             "codec 0..9999) are re-proved against the regenerated definitions. The running class and the .dekad accessor "
+             "are compared with an independent calendar over all 3,652,059 dates and 359,964 dekads (thorough; a stratified "
+             "set of years at quick) and with the generated model inside Coq.",
+        ref="7 (C11), 5",
+        note="Trusted: Coq kernel + vm_compute; the translator; Base/Civil.v as the meaning of datetime/timedelta (CPython "
+             "_ymd2ord) and Base/PyStr.v as the meaning of slicing/int()/f-string fields, both cross-checked against the "
+             "interpreter on every run. Print Assumptions: closed under the global context.",
+        technique="Coq proof over a model regenerated from source by a translator + exhaustive correspondence"),
 }
 
 PENDING = "no check has been built for this property yet (work in progress; see DESIGN.md section 7 for the plan)"
